@@ -521,7 +521,7 @@ func main() {
 		in := mkInput(vs, nil)
 		ob.merged = runMerge(in)
 		if strings.HasPrefix(ob.merged.err, "panic:") {
-			run.Fail(idx, "merge-panic", ob.merged.err, c)
+			failCapped(run, idx, "merge-panic", ob.merged.err, c)
 		}
 		wf := allWF(vs)
 		closed := allClosed(vs)
@@ -583,10 +583,10 @@ func main() {
 				m2 := runMerge(mkInput(vs, func(s, v string) (string, string) { return svcNames[s], verNames[v] }))
 				if m2.ok != ob.merged.ok {
 					sig := "merge-error-depends-on-naming"
-					run.Fail(idx, sig, fmt.Sprintf("original: ok=%v %s; renamed %v %v: ok=%v %s", ob.merged.ok, short(ob.merged.err, 200), svcNames, verNames, m2.ok, short(m2.err, 200)), c)
+					failCapped(run, idx, sig, fmt.Sprintf("original: ok=%v %s; renamed %v %v: ok=%v %s", ob.merged.ok, short(ob.merged.err, 200), svcNames, verNames, m2.ok, short(m2.err, 200)), c)
 					break
 				} else if m2.ok && m2.canon != ob.merged.canon {
-					run.Fail(idx, "merge-result-depends-on-naming", fmt.Sprintf("renamed %v %v: %s vs %s", svcNames, verNames, short(ob.merged.canon, 400), short(m2.canon, 400)), c)
+					failCapped(run, idx, "merge-result-depends-on-naming", fmt.Sprintf("renamed %v %v: %s vs %s", svcNames, verNames, short(ob.merged.canon, 400), short(m2.canon, 400)), c)
 					break
 				}
 			}
@@ -606,7 +606,7 @@ func main() {
 			for s, l := range bySvc {
 				ps := perSvc[s]
 				if !ps.ok {
-					run.Fail(idx, "service-merge-fails-but-whole-succeeds", s+": "+ps.err, c)
+					failCapped(run, idx, "service-merge-fails-but-whole-succeeds", s+": "+ps.err, c)
 					continue
 				}
 				if len(l) < 2 {
@@ -614,7 +614,7 @@ func main() {
 				}
 				for _, v := range l {
 					if msg := subsumes(v.rs, ps.s); msg != "" {
-						run.Fail(idx, "intersection-keeps-what-a-version-lacks", fmt.Sprintf("service %s version %q: %s", s, v.ver, msg), c)
+						failCapped(run, idx, "intersection-keeps-what-a-version-lacks", fmt.Sprintf("service %s version %q: %s", s, v.ver, msg), c)
 					}
 				}
 			}
@@ -626,7 +626,7 @@ func main() {
 				for _, t := range ps.s.Types {
 					mt := ob.merged.s.find(t.Name)
 					if mt == nil {
-						run.Fail(idx, "union-loses-type", s+": "+t.Name, c)
+						failCapped(run, idx, "union-loses-type", s+": "+t.Name, c)
 						continue
 					}
 					for _, f := range t.Fields {
@@ -635,7 +635,7 @@ func main() {
 							found = found || mf.Name == f.Name
 						}
 						if !found {
-							run.Fail(idx, "union-loses-field", s+": "+t.Name+"."+f.Name, c)
+							failCapped(run, idx, "union-loses-field", s+": "+t.Name+"."+f.Name, c)
 						}
 					}
 				}
@@ -644,7 +644,7 @@ func main() {
 			checkNullability(run, idx, c, vs, perSvc, ob.merged.s)
 			// ---- oracle (c): closure
 			if closed && !ob.merged.s.closed() {
-				run.Fail(idx, "merged-schema-not-closed", short(ob.merged.canon, 600), c)
+				failCapped(run, idx, "merged-schema-not-closed", short(ob.merged.canon, 600), c)
 			}
 		}
 
@@ -656,7 +656,7 @@ func main() {
 				// (schema.go:516-518); introspection of a real schema cannot produce such input, so it is only
 				// reported when every input is well-formed and closed.
 				if wf && closed {
-					run.Fail(idx, "convert-panic", cerr, c)
+					failCapped(run, idx, "convert-panic", cerr, c)
 				} else {
 					run.Hist("convert:panic-on-unclosed-input")
 				}
@@ -677,7 +677,7 @@ func main() {
 			for _, msg := range inputSideUnknown(ob.merged.s, perSvc, ob.fieldSvc) {
 				if !known[msg.sig] {
 					known[msg.sig] = true
-					run.Fail(idx, msg.sig, msg.detail, c)
+					failCapped(run, idx, msg.sig, msg.detail, c)
 				}
 			}
 		}
@@ -723,7 +723,7 @@ func main() {
 						} else if strings.Contains(msg, "unexpected args") && known[sigArg] {
 							sig = sigArg
 						}
-						run.Fail(idx, sig, fmt.Sprintf("service %s version %s rejects {%s}: %s", v.svc, v.ver, selsText(q), msg), c)
+						failCapped(run, idx, sig, fmt.Sprintf("service %s version %s rejects {%s}: %s", v.svc, v.ver, selsText(q), msg), c)
 					}
 				}
 				ob.queries = append(ob.queries, qo)
@@ -913,7 +913,7 @@ func checkNullability(run *vh.Run, idx int, c Case, vs []*version, perSvc map[st
 					}
 				}
 				if len(outs) > 0 && mfl[lvl] != all {
-					run.Fail(idx, "output-nullability-rule", fmt.Sprintf("%s.%s level %d: merged non-null=%v, sides=%v", mt.Name, mf.Name, lvl, mfl[lvl], outs), c)
+					failCapped(run, idx, "output-nullability-rule", fmt.Sprintf("%s.%s level %d: merged non-null=%v, sides=%v", mt.Name, mf.Name, lvl, mfl[lvl], outs), c)
 				}
 			}
 			for _, ma := range mf.Args {
@@ -927,7 +927,7 @@ func checkNullability(run *vh.Run, idx int, c Case, vs []*version, perSvc map[st
 						}
 					}
 					if len(sides) > 0 && afl[lvl] != any {
-						run.Fail(idx, "input-nullability-rule", fmt.Sprintf("%s.%s(%s) level %d: merged non-null=%v, sides=%v", mt.Name, mf.Name, ma.Name, lvl, afl[lvl], sides), c)
+						failCapped(run, idx, "input-nullability-rule", fmt.Sprintf("%s.%s(%s) level %d: merged non-null=%v, sides=%v", mt.Name, mf.Name, ma.Name, lvl, afl[lvl], sides), c)
 					}
 				}
 			}
@@ -1039,4 +1039,17 @@ func inputSideUnknown(merged *Schema, perSvc map[string]mergeOut, fieldSvc map[f
 		}
 	}
 	return out
+}
+
+// failCapped records at most 12 failures per signature (vh.Run keeps 200 in all), so that a frequent signature
+// -- e.g. an open known finding -- cannot crowd out a different one; the rest are counted in the histogram.
+var failCount = map[string]int{}
+
+func failCapped(run *vh.Run, idx int, sig, detail string, c interface{}) {
+	failCount[sig]++
+	if failCount[sig] > 12 {
+		run.Hist("failures-not-listed:" + sig)
+		return
+	}
+	run.Fail(idx, sig, detail, c)
 }
